@@ -310,6 +310,48 @@ func genErrPath(r *rand.Rand) caseSpec {
 	return cs
 }
 
+// genPomErr: the offset managers' error path: Return.Errors with a tiny buffer, commits of the final flush (and a Commit()
+// made by a handler) refused 1..Retry.Max+1 times with an error the offset manager reports, Errors() read or not, then one
+// of the session-end causes. The final flush must not wait for the application.
+func genPomErr(r *rand.Rand) caseSpec {
+	cs := caseSpec{Retries: 1, HbRetries: 1, Attempts: 1 + r.Intn(3), InitialOldest: true, Close: true, Leave: "ok",
+		ReturnErrors: true, ChanBuf: r.Intn(2), ReadErrors: r.Intn(2) == 0}
+	np := 1 + r.Intn(2)
+	for p := 0; p < np; p++ {
+		hi := int64(2 + r.Intn(6))
+		st := int64(-1)
+		if r.Intn(2) == 0 {
+			st = int64(r.Intn(int(hi)))
+		}
+		cs.Parts = append(cs.Parts, partSpec{Topic: 0, P: p, Oldest: 0, Newest: hi, Stored: st})
+	}
+	c := callSpec{SetupOK: true, CleanupOK: true, Reported: true, MidCommit: r.Intn(3) == 0}
+	for _, p := range cs.Parts {
+		c.Plan = append(c.Plan, p.id())
+		c.Beh = append(c.Beh, behSpec{P: p.id(), Quota: -1, Mark: 1 + r.Intn(2)})
+	}
+	for i, n := 0, 1+r.Intn(cs.Attempts); i < n; i++ {
+		c.Commits = append(c.Commits, false)
+	}
+	switch r.Intn(6) {
+	case 0:
+		c.Trigger = "ctx-steady"
+	case 1:
+		c.Trigger, c.Hbs = "hb-steady", []string{"rebalance"}
+	case 2:
+		c.Trigger, c.Hbs = "hb-steady", []string{pick(r, []string{"unknown", "illegal"})}
+	case 3:
+		c.Trigger = "close-steady"
+	case 4:
+		c.Trigger = "part-steady"
+	default:
+		c.Trigger = "none"
+		c.Beh[0].Quota, c.Beh[0].Mark = 1, 1
+	}
+	cs.Calls = []callSpec{c}
+	return cs
+}
+
 // enumerated coordinator scripts: every sequence of length <= maxLen over the join verdict classes, each
 // followed by the default (ok) answers, combined with a sync script of the remaining length.
 func enumScripts(maxLen int) [][2][]string {
